@@ -178,13 +178,15 @@ Record tstate := mkT { ts_mode : tmode; ts_cur : str; ts_out : list xtok }.   (*
 Definition flush (cur : str) (out : list xtok) : list xtok :=
   match cur with [] => out | _ => TkText (rev cur) :: out end.
 
-Definition tstep (st : tstate) (c : Z) : option tstate :=
+(* lenient = HTML-style character data: the literal "]]>" is not an error (used only as the stand-in for the
+   HTML parser in C04; the strict XML parser is tstep = tstep_gen false) *)
+Definition tstep_gen (lenient : bool) (st : tstate) (c : Z) : option tstate :=
   match ts_mode st with
   | MText nbr cr =>
       if c =? 60 then Some (mkT (MTag [] 0) [] (flush (ts_cur st) (ts_out st)))
       else if c =? 38 then Some (mkT (MRef []) (ts_cur st) (ts_out st))
       else if negb (xml_char c) then None
-      else if (c =? 62) && (2 <=? nbr)%nat then None
+      else if (c =? 62) && (2 <=? nbr)%nat && negb lenient then None
       else if c =? 13 then Some (mkT (MText 0 true) (10 :: ts_cur st) (ts_out st))
       else if (c =? 10) && cr then Some (mkT (MText 0 false) (ts_cur st) (ts_out st))
       else Some (mkT (MText (if c =? 93 then S nbr else 0) false) (c :: ts_cur st) (ts_out st))
@@ -209,6 +211,14 @@ Definition tstep (st : tstate) (c : Z) : option tstate :=
       else if c =? q then Some (mkT (MTag (c :: acc) 0) [] (ts_out st))
       else if c =? 60 then None
       else Some (mkT (MTag (c :: acc) q) [] (ts_out st))
+  end.
+
+Definition tstep := tstep_gen false.
+
+Fixpoint trun_gen (lenient : bool) (st : tstate) (s : str) : option tstate :=
+  match s with
+  | [] => Some st
+  | c :: t => match tstep_gen lenient st c with Some st' => trun_gen lenient st' t | None => None end
   end.
 
 Fixpoint trun (st : tstate) (s : str) : option tstate :=
@@ -240,6 +250,13 @@ Fixpoint xbuild (toks : list xtok) (stack : list (str * list (str * str) * list 
       | (n', a, prev) :: st' => if str_eqb n n' then xbuild t st' (XElem n a (rev cur) :: prev) else None
       | [] => None
       end
+  end.
+
+(* HTML-style stand-in (lenient about "]]>") *)
+Definition content_parse_html (s : str) : option (list xnode) :=
+  match trun_gen true t_init s with
+  | Some st => match t_finish st with Some toks => xbuild toks [] [] | None => None end
+  | None => None
   end.
 
 Definition content_parse (s : str) : option (list xnode) :=
